@@ -1,27 +1,800 @@
-//! C18 — not built yet (stub so that the binary links; `./check C18` reports INFRA until replaced).
-use arbitrary::Unstructured;
-use vcore::{Check, Labels, Plan, Tier, Verdict};
+//! C18 — standard-library containers and helpers meet their contracts (model-based / stateful PBT).
+//!
+//! A case is a *history*: an element/key type, a small universe of keys, initial contents and up to 40
+//! operations on one list / dict / set, or a sequence of Maybe- and math-helper calls. The history is run
+//! against a plain Rust model (Vec, BTreeMap, BTreeSet, Option, i64, exact eighths) and rendered as one Sylt
+//! program that prints an observation after every operation; the program is compiled by the real pipeline and
+//! run by mini-Lua; the printed lines must equal the model's lines and the run must end normally.
+#[path = "c18_types.rs"]
+pub mod types;
+#[path = "c18_render.rs"]
+pub mod render;
 
-pub struct Stub;
-pub const CHECK: Stub = Stub;
-pub fn plan(_t: Tier) -> Plan {
-    Plan::new(1, 16)
+use arbitrary::Unstructured;
+use render::{colliding, render, Line, Rendered, PRO};
+use types::*;
+use vcore::luarun::{run_lua, LuaOutcome, Terminal};
+use vcore::{compile, Check, Labels, Outcome, Project, Stats, Step, Tape, Tier, Verdict};
+
+pub struct C18;
+pub const CHECK: C18 = C18;
+pub fn plan(t: Tier) -> vcore::Plan {
+    vcore::Plan::new(t.pick(4_000, 80_000), 640)
 }
-impl Check for Stub {
-    type Case = u8;
+
+// ---------------------------------------------------------------------------------------------------
+// generator
+// ---------------------------------------------------------------------------------------------------
+
+const ATOMS: [&str; 12] = ["a", "", "b", " ", ",", ", ", "a, b", "a,b", " a", "b ", "ab", ", a"];
+const ALPHA: [char; 4] = ['a', 'b', ' ', ','];
+
+fn gen_str(t: &mut Tape) -> String {
+    if t.chance(2, 3) {
+        t.pick(&ATOMS).to_string()
+    } else {
+        let n = t.below(4);
+        (0..n).map(|_| *t.pick(&ALPHA)).collect()
+    }
+}
+fn gen_int(t: &mut Tape) -> i64 {
+    match t.weighted(&[10, 2, 1]) {
+        0 => t.range(-3, 6),
+        1 => *t.pick(&[2147483647i64, -2147483648, 2147483648, -2147483647, 100, -100, 255, 65536]),
+        _ => {
+            let v = (t.u64() & 0xffff_ffff) as i64;
+            v - (1 << 31)
+        }
+    }
+}
+fn gen_val(t: &mut Tape, ty: &Ty) -> Val {
+    match ty {
+        Ty::Int => Val::Int(gen_int(t)),
+        Ty::Str => Val::Str(gen_str(t)),
+        Ty::Bool => Val::Bool(t.bool()),
+        Ty::Tup(ts) => Val::Tup(ts.iter().map(|x| gen_val(t, x)).collect()),
+    }
+}
+fn gen_ty(t: &mut Tape) -> Ty {
+    match t.weighted(&[5, 4, 2, 3, 2, 1, 1, 1, 1]) {
+        0 => Ty::Int,
+        1 => Ty::Str,
+        2 => Ty::Tup(vec![Ty::Int, Ty::Int]),
+        3 => Ty::Tup(vec![Ty::Str, Ty::Str]),
+        4 => Ty::Tup(vec![Ty::Int, Ty::Str]),
+        5 => Ty::Tup(vec![Ty::Str]),
+        6 => Ty::Tup(vec![Ty::Int]),
+        7 => Ty::Tup(vec![Ty::Str, Ty::Int]),
+        _ => Ty::Tup(vec![Ty::Str, Ty::Int, Ty::Str]),
+    }
+}
+fn gen_num(t: &mut Tape, float: bool) -> Num {
+    if float {
+        Num::F(match t.weighted(&[8, 2]) {
+            0 => t.range(-40, 40),
+            _ => t.range(-(1 << 20), 1 << 20),
+        })
+    } else {
+        Num::I(gen_int(t))
+    }
+}
+fn gen_pred(t: &mut Tape, ty: &Ty, n: usize) -> Pred {
+    let k = t.below(n);
+    match (t.weighted(&[4, 2, 2, 2, 3, 1, 1]), ty) {
+        (0, _) => Pred::Eq(k),
+        (1, _) => Pred::Ne(k),
+        (2, Ty::Int) => Pred::Lt(k),
+        (3, Ty::Int) => Pred::Gt(k),
+        (4, Ty::Tup(_)) => Pred::FstEq(k),
+        (5, _) => Pred::Never,
+        (6, _) => Pred::Always,
+        _ => Pred::Eq(k),
+    }
+}
+fn gen_mapfn(t: &mut Tape, ty: &Ty, n: usize) -> MapFn {
+    let k = t.below(n);
+    match (t.weighted(&[2, 3, 2, 3, 2]), ty) {
+        (0, _) => MapFn::Id,
+        (1, Ty::Int) | (1, Ty::Str) => MapFn::Add(k),
+        (2, _) => MapFn::Pair,
+        (3, Ty::Tup(_)) => MapFn::Fst,
+        (4, _) => MapFn::IsEq(k),
+        _ => MapFn::Pair,
+    }
+}
+fn gen_foldfn(t: &mut Tape, ty: &Ty) -> FoldFn {
+    let i = t.range(0, 3);
+    match ty {
+        Ty::Int => match t.below(4) {
+            0 => FoldFn::Sum(i),
+            1 => FoldFn::SubAcc(i),
+            2 => FoldFn::Poly(i),
+            _ => FoldFn::Count(i),
+        },
+        Ty::Str => match t.below(3) {
+            0 => FoldFn::CatAccItem,
+            1 => FoldFn::CatItemAcc,
+            _ => FoldFn::Count(i),
+        },
+        Ty::Tup(ts) if ts[0] == Ty::Int => match t.below(2) {
+            0 => FoldFn::SumFst(i),
+            _ => FoldFn::Count(i),
+        },
+        _ => FoldFn::Count(i),
+    }
+}
+
+fn gen_case(t: &mut Tape) -> Case {
+    // 80 % of the budget avoids the three open findings; the rest switches exactly one avoidance off
+    let sw = match t.weighted(&[12, 1, 1, 1]) {
+        0 => Switches::all_on(),
+        1 => Switches { avoid_dict_remove_nonstr: false, ..Switches::all_on() },
+        2 => Switches { avoid_none_eq_source: false, ..Switches::all_on() },
+        _ => Switches { avoid_key_collision: false, ..Switches::all_on() },
+    };
+    let kind = match t.weighted(&[3, 3, 2, 2]) {
+        0 => Kind::List,
+        1 => Kind::Dict,
+        2 => Kind::Set,
+        _ => Kind::MaybeMath,
+    };
+    let elem = gen_ty(t);
+    let vty = if t.bool() { Ty::Str } else { Ty::Int };
+    let n_uni = 1 + t.below(6);
+    let mut universe: Vec<Val> = Vec::new();
+    for _ in 0..n_uni {
+        let v = gen_val(t, &elem);
+        if !universe.contains(&v) {
+            universe.push(v);
+        }
+    }
+    // tuples with two adjacent string components: plant a pair of distinct keys that print the same text
+    if let Ty::Tup(ts) = &elem {
+        if let Some(p) = (0..ts.len().saturating_sub(1)).find(|i| ts[*i] == Ty::Str && ts[*i + 1] == Ty::Str) {
+            if t.chance(1, 2) {
+                let (a, b, c) = (gen_str(t), gen_str(t), gen_str(t));
+                let base = gen_val(t, &elem);
+                if let Val::Tup(xs) = base {
+                    let mut k1 = xs.clone();
+                    let mut k2 = xs;
+                    k1[p] = Val::Str(format!("{}, {}", a, b));
+                    k1[p + 1] = Val::Str(c.clone());
+                    k2[p] = Val::Str(a);
+                    k2[p + 1] = Val::Str(format!("{}, {}", b, c));
+                    for k in [Val::Tup(k1), Val::Tup(k2)] {
+                        if !universe.contains(&k) {
+                            universe.push(k);
+                        }
+                    }
+                }
+            }
+        }
+    }
+    let n_vals = 1 + t.below(4);
+    let mut vals: Vec<Val> = Vec::new();
+    for _ in 0..n_vals {
+        let v = gen_val(t, &vty);
+        if !vals.contains(&v) {
+            vals.push(v);
+        }
+    }
+    let nu = universe.len();
+    let nv = vals.len();
+    let n_init = t.below(6);
+    let init: Vec<(usize, usize)> = (0..n_init).map(|_| (t.below(nu), t.below(nv))).collect();
+    let from_list = t.bool();
+    let n_ops = t.below(41);
+    let mut ops = Vec::with_capacity(n_ops);
+    // approximate length of the list, so that most get/set indices are near the valid range
+    let mut len: i64 = if kind == Kind::List || kind == Kind::MaybeMath { n_init as i64 } else { 0 };
+    for _ in 0..n_ops {
+        let op = match kind {
+            Kind::List => match t.weighted(&[5, 3, 3, 4, 4, 2, 2, 2, 2, 2, 2, 2]) {
+                0 => {
+                    len += 1;
+                    Op::Push(t.below(nu))
+                }
+                1 => {
+                    len += 1;
+                    Op::Prepend(t.below(nu))
+                }
+                2 => {
+                    len = (len - 1).max(0);
+                    Op::Pop
+                }
+                3 => Op::Get(t.range(-2, len + 1)),
+                4 => {
+                    let i = if t.chance(1, 8) { t.range(-2, len + 1) } else { t.range(0, (len - 1).max(0)) };
+                    Op::Set(i, t.below(nu))
+                }
+                5 => Op::Len,
+                6 => Op::Map(gen_mapfn(t, &elem, nu)),
+                7 => Op::Filter(gen_pred(t, &elem, nu)),
+                8 => Op::Fold(gen_foldfn(t, &elem)),
+                9 => Op::Find(gen_pred(t, &elem, nu)),
+                10 => Op::Contains(t.below(nu)),
+                _ => Op::Last,
+            },
+            Kind::Dict => match t.weighted(&[6, 4, 5, 1, 2]) {
+                0 => Op::Update(t.below(nu), t.below(nv)),
+                1 => Op::Lookup(t.below(nu)),
+                2 => Op::Remove(t.below(nu)),
+                3 => Op::Len,
+                _ => Op::Contains(t.below(nu)),
+            },
+            Kind::Set => match t.weighted(&[6, 4, 5, 1]) {
+                0 => Op::Add(t.below(nu)),
+                1 => Op::Contains(t.below(nu)),
+                2 => Op::Remove(t.below(nu)),
+                _ => Op::Len,
+            },
+            Kind::MaybeMath => {
+                if t.chance(1, 2) {
+                    let src = match t.weighted(&[3, 2, 4, 2]) {
+                        0 => MSrc::SrcJust(t.below(nu)),
+                        1 => MSrc::SrcNone,
+                        2 => MSrc::LibGet(t.range(-1, len + 1)),
+                        _ => MSrc::LibFind(gen_pred(t, &elem, nu)),
+                    };
+                    let helper = match t.weighted(&[4, 2, 2, 2, 2]) {
+                        0 => MHelper::Observe,
+                        1 => MHelper::OrDefault(t.below(nu)),
+                        2 => MHelper::Map(gen_mapfn(t, &elem, nu)),
+                        3 => MHelper::AndThen(gen_pred(t, &elem, nu)),
+                        _ => MHelper::Flatten,
+                    };
+                    Op::May(src, helper)
+                } else {
+                    let f = t.bool();
+                    Op::Math(match t.weighted(&[2, 2, 2, 3, 2, 4, 3]) {
+                        0 => MathOp::Min(gen_num(t, f), gen_num(t, f)),
+                        1 => MathOp::Max(gen_num(t, f), gen_num(t, f)),
+                        2 => MathOp::Abs(gen_num(t, f)),
+                        3 => {
+                            let (x, a, b) = (gen_num(t, f), gen_num(t, f), gen_num(t, f));
+                            // mostly lo <= hi (the other order is unspecified and is skipped when rendered)
+                            if a.raw() > b.raw() && !t.chance(1, 8) {
+                                MathOp::Clamp(x, b, a)
+                            } else {
+                                MathOp::Clamp(x, a, b)
+                            }
+                        }
+                        4 => MathOp::Sign(gen_num(t, f)),
+                        5 => MathOp::Div(gen_int(t), gen_int(t)),
+                        _ => MathOp::Floor(gen_num(t, f)),
+                    })
+                }
+            }
+        };
+        ops.push(op);
+    }
+    Case { kind, elem, vty, universe, vals, init, from_list, ops, sw, source: String::new() }
+}
+
+// ---------------------------------------------------------------------------------------------------
+// oracle
+// ---------------------------------------------------------------------------------------------------
+
+fn op_name(case: &Case, op: usize) -> String {
+    if op == PRO {
+        match (case.kind, case.from_list) {
+            (Kind::Dict, true) | (Kind::Set, true) => "from_list".into(),
+            (Kind::Dict, false) | (Kind::Set, false) => "new".into(),
+            _ => "literal".into(),
+        }
+    } else if op >= case.ops.len() {
+        "final".into()
+    } else {
+        case.ops[op].name().into()
+    }
+}
+
+/// Names the root-cause class of the first difference between expected and printed lines.
+fn classify(case: &Case, r: &Rendered, got: &[String], terminal: &Terminal) -> Option<(String, String)> {
+    let kind = case.kind.name();
+    let n = r.exp.len().min(got.len());
+    let first = (0..n).find(|i| r.exp[*i].text != got[*i]);
+    let coll = colliding(case);
+    let describe = |i: usize| -> String {
+        let l: &Line = &r.exp[i];
+        format!(
+            "observation #{} ({} after operation {} = {}{}): model says {:?}, program printed {:?}",
+            i + 1,
+            l.tag,
+            if l.op == PRO { "prologue".to_string() } else { format!("#{}", l.op) },
+            op_name(case, l.op),
+            l.key.map(|k| format!(", probed key {}", case.universe[k].lit())).unwrap_or_default(),
+            l.text,
+            got.get(i).cloned().unwrap_or_else(|| "<nothing>".into())
+        )
+    };
+    if let Some(i) = first {
+        let l = &r.exp[i];
+        let opn = op_name(case, l.op);
+        // (1) library-made None compared with a source-written None
+        if l.tag == "eq-source-none" && l.text == "true" && got[i] == "false" {
+            return Some(("C18/maybe/library-none-not-equal-source-none".into(), describe(i)));
+        }
+        // (2) distinct keys that print the same text
+        if matches!(case.kind, Kind::Dict | Kind::Set) {
+            let op_key = if l.op < case.ops.len() {
+                match &case.ops[l.op] {
+                    Op::Update(k, _) | Op::Lookup(k) | Op::Remove(k) | Op::Contains(k) | Op::Add(k) => Some(*k),
+                    _ => None,
+                }
+            } else {
+                None
+            };
+            let involved = match (l.key, op_key) {
+                (Some(k), _) => coll.get(k).copied().unwrap_or(false),
+                (None, Some(k)) => coll.get(k).copied().unwrap_or(false),
+                (None, None) => coll.iter().any(|c| *c),
+            };
+            if involved {
+                return Some((format!("C18/{}/distinct-keys-with-same-text-collide", kind), describe(i)));
+            }
+        }
+        // (3) a mutating operation after which the whole-state observation is what it was before
+        if l.state && l.op != PRO && l.op < case.ops.len() && case.ops[l.op].mutating() {
+            let block: Vec<usize> = (0..r.exp.len()).filter(|j| r.exp[*j].op == l.op && r.exp[*j].state).collect();
+            let prev_op = r.exp[..block[0]].iter().rev().find(|x| x.state).map(|x| x.op);
+            if let Some(p) = prev_op {
+                let prev: Vec<&str> = r.exp.iter().filter(|x| x.op == p && x.state).map(|x| x.text.as_str()).collect();
+                let now_got: Vec<&str> = block.iter().filter_map(|j| got.get(*j)).map(|s| s.as_str()).collect();
+                if prev.len() == now_got.len() && prev == now_got {
+                    return Some((format!("C18/{}/{}-has-no-effect", kind, opn), describe(i)));
+                }
+            }
+        }
+        return Some((format!("C18/{}/{}/{}", kind, opn, l.tag), describe(i)));
+    }
+    if r.exp.len() != got.len() {
+        let (opn, what) = if got.len() < r.exp.len() {
+            (op_name(case, r.exp[n].op), format!("program stopped after {} of {} observations ({:?}); next expected: {}", n, r.exp.len(), terminal, describe(n)))
+        } else {
+            ("final".to_string(), format!("program printed {} extra lines, first {:?}", got.len() - n, got[n]))
+        };
+        let class = match terminal {
+            Terminal::LuaError { class, .. } => format!("lua-error-{}", class),
+            Terminal::AssertFailed => "assert-failed".into(),
+            Terminal::Unreachable(_) => "unreachable".into(),
+            _ => "output-length".into(),
+        };
+        return Some((format!("C18/{}/{}/{}", kind, opn, class), what));
+    }
+    if *terminal != Terminal::Ok {
+        return Some((format!("C18/{}/final/terminal", kind), format!("all observations agree but the run ended with {:?}", terminal)));
+    }
+    None
+}
+
+impl Check for C18 {
+    type Case = Case;
     fn id(&self) -> &'static str {
         "C18"
     }
-    fn generate(&self, _u: &mut Unstructured, _tier: Tier) -> Option<u8> {
-        None
+    fn generate(&self, u: &mut Unstructured, _tier: Tier) -> Option<Case> {
+        let mut t = Tape::new(u);
+        let mut c = gen_case(&mut t);
+        c.source = render(&c).source;
+        Some(c)
     }
-    fn evaluate(&self, _case: &u8, _labels: &mut Labels) -> Verdict {
-        Verdict::Discard("stub".into())
+
+    fn evaluate(&self, case: &Case, labels: &mut Labels) -> Verdict {
+        let r = render(case);
+        for l in &r.labels {
+            labels.add(l.clone());
+        }
+        let sw = &case.sw;
+        if !sw.avoid_dict_remove_nonstr || !sw.avoid_none_eq_source || !sw.avoid_key_collision {
+            labels.add("switch:one-avoidance-off");
+        }
+        let out = compile(&Project::single(r.source.clone()));
+        let lua = match &out {
+            Outcome::Accepted(b) => b,
+            Outcome::Rejected { errors, bytes_written } => {
+                if *bytes_written > 0 {
+                    return Verdict::Violation {
+                        signature: "C18/rejected-but-wrote-lua".into(),
+                        detail: format!("{} bytes of Lua written although compilation failed: {}", bytes_written, out.short()),
+                    };
+                }
+                labels.add(format!("rejected:{}:{}", errors[0].kind, errors[0].sub));
+                if let Ok(d) = std::env::var("C18_SAVE_REJECTED") {
+                    let _ = std::fs::create_dir_all(&d);
+                    let _ = std::fs::write(format!("{}/rej_{:x}.sy", d, vcore::hash64(&r.source)), format!("// {}\n{}", out.short(), r.source));
+                }
+                return Verdict::Discard("rejected".into());
+            }
+            Outcome::Panicked { .. } => {
+                labels.add("compiler-panicked");
+                return Verdict::Discard("compiler-panicked".into());
+            }
+        };
+        labels.add("accepted");
+        let got = match run_lua(lua, 20_000_000) {
+            LuaOutcome::LoadError { class, msg, line } => {
+                // loadability is C06's property; here the case is unusable
+                labels.add(format!("lua-load-error:{}", class));
+                let _ = (msg, line);
+                return Verdict::Discard(format!("lua-load-{}", class));
+            }
+            LuaOutcome::Ran(t) => t,
+        };
+        if let Terminal::OutOfBudget(w) = &got.terminal {
+            return Verdict::Discard(format!("lua-budget-{}", w));
+        }
+        if let Some((signature, what)) = classify(case, &r, &got.lines, &got.terminal) {
+            return Verdict::Violation { signature, detail: format!("{}\n--- program ---\n{}", what, r.source) };
+        }
+        let nontrivial = r.ops_run >= 5 && (r.absent_lookup || r.remove_after_insert);
+        if r.absent_lookup {
+            labels.add("nt:absent-lookup");
+        }
+        if r.remove_after_insert {
+            labels.add("nt:remove-after-insert");
+        }
+        labels.add(match r.ops_run {
+            0 => "ops:0",
+            1..=4 => "ops:1-4",
+            5..=15 => "ops:5-15",
+            _ => "ops:16-40",
+        });
+        Verdict::Pass { nontrivial }
     }
+
+    fn simplify_at(&self, case: &Case, idx: usize) -> Step<Case> {
+        let fin = |mut c: Case| {
+            c.source = render(&c).source;
+            Step::Candidate(c)
+        };
+        let mut i = idx;
+        // 1. drop an operation
+        if i < case.ops.len() {
+            let mut c = case.clone();
+            c.ops.remove(i);
+            return fin(c);
+        }
+        i -= case.ops.len();
+        // 2. drop an initial element
+        if i < case.init.len() {
+            let mut c = case.clone();
+            c.init.remove(i);
+            return fin(c);
+        }
+        i -= case.init.len();
+        // 3. shrink the key universe: drop key j together with everything that refers to it
+        if i < case.universe.len() {
+            if case.universe.len() <= 1 {
+                return Step::Skip;
+            }
+            return match drop_key(case, i) {
+                Some(c) => fin(c),
+                None => Step::Skip,
+            };
+        }
+        i -= case.universe.len();
+        // 4. shrink an argument of an operation
+        if i < case.ops.len() {
+            return match shrink_op(&case.ops[i]) {
+                Some(op) => {
+                    let mut c = case.clone();
+                    c.ops[i] = op;
+                    fin(c)
+                }
+                None => Step::Skip,
+            };
+        }
+        i -= case.ops.len();
+        // 5. simplify a key of the universe
+        if i < case.universe.len() {
+            return match shrink_val(&case.universe[i]) {
+                Some(v) if !case.universe.contains(&v) => {
+                    let mut c = case.clone();
+                    c.universe[i] = v;
+                    fin(c)
+                }
+                _ => Step::Skip,
+            };
+        }
+        i -= case.universe.len();
+        // 6. simplify a dict value
+        if i < case.vals.len() {
+            return match shrink_val(&case.vals[i]) {
+                Some(v) if !case.vals.contains(&v) => {
+                    let mut c = case.clone();
+                    c.vals[i] = v;
+                    fin(c)
+                }
+                _ => Step::Skip,
+            };
+        }
+        i -= case.vals.len();
+        // 7. all avoidance switches on / new() instead of from_list
+        match i {
+            0 => {
+                if case.sw == Switches::all_on() {
+                    Step::Skip
+                } else {
+                    let mut c = case.clone();
+                    c.sw = Switches::all_on();
+                    fin(c)
+                }
+            }
+            1 => {
+                if case.from_list && case.init.is_empty() {
+                    let mut c = case.clone();
+                    c.from_list = false;
+                    fin(c)
+                } else {
+                    Step::Skip
+                }
+            }
+            _ => Step::End,
+        }
+    }
+
+    fn sample(&self, case: &Case) -> serde_json::Value {
+        let ops: Vec<String> = case.ops.iter().map(|o| format!("{:?}", o)).collect();
+        vcore::truncate_value(
+            serde_json::json!({
+                "kind": case.kind.name(), "elem": case.elem.src(), "universe": case.universe.iter().map(|v| v.lit()).collect::<Vec<_>>(),
+                "ops": ops.join("; "), "program": case.source,
+            }),
+            2048,
+        )
+    }
+
     fn rule(&self) -> String {
-        "stub".into()
+        "cases: operation histories decoded from a byte tape: one of list / dict / set / maybe+math, an element or key type \
+         (int, str over {a b space comma} incl. the empty string, tuples (int,int) (str,str) (int,str) (str,int) (str,) (int,) \
+         (str,int,str)), a universe of 1..8 keys (for tuples with two adjacent strings half of the universes hold a planted pair of \
+         distinct keys with the same printed text), 0..5 initial elements (dict/set: from_list, duplicates allowed, or new()), \
+         0..40 operations with generated arguments (list indices from -2 to len+1, keys from the universe so that hits, misses and \
+         removals after insertions occur; ints up to |x| <= 2^31; floats = k/8). The history is interpreted by a Rust model \
+         (Vec/BTreeMap/BTreeSet/Option, wrapping i64, exact eighths) and rendered as one Sylt program printing an observation after \
+         every operation (list printed whole; dict/set probed by get/contains_key/contains/len over the whole universe; results of \
+         get/pop/find/last printed and compared in Sylt with source-written Maybe.Just x / Maybe.None; math results compared with == \
+         against a literal of the declared type plus ordering checks; at the end the container is compared with one rebuilt from the \
+         model's contents). oracle: printed lines == model lines and the run ends normally. non-trivial = accepted, >= 5 rendered \
+         operations, and at least one removal after an insertion or one absent lookup; distinct by hash of the case. \
+         Inputs excluded as unspecified by docs/signatures (skipped when rendered, counted as labels excluded:*): list.set with an \
+         index outside 0..len-1; div(a, 0); the direction in which div rounds a negative inexact quotient (only |a - q*b| < |b| is \
+         checked there); sign(0) and sign(0.0); clamp with lo > hi; mixing int and float arguments; |x| > 2^31. \
+         Open findings are avoided for 80 % of the budget by three switches (labels avoided:*), one of which is off in the other 20 %."
+            .into()
     }
-    fn health(&self, _s: &vcore::Stats) -> Result<(), String> {
-        Err("check not built yet".into())
+    fn assumptions(&self) -> Vec<String> {
+        vec![
+            "mini-Lua (harness/minilua) agrees with Lua 5.3 on the subset the emitter and preamble.lua use (validated by ./check selftest)".into(),
+            "contracts taken from std/*.sy signatures and the repository's own tests: list.get/pop/find/last and dict.get return Maybe, \
+             so out-of-range / empty / missing yield None; fold calls f(item, acc) as in `pu *ITEM, *OUT -> *OUT`; from_list with \
+             duplicate keys keeps the last value (fold of update); floor rounds toward negative infinity (tests/sylt_std/floor.sy); \
+             div on a non-negative or exact quotient is the mathematical quotient (tests/bugs/int_division_632.sy)"
+                .into(),
+            "how a float-typed result is spelled when printed (1 vs 1.0) is not part of the contract: numeric results are compared with == in Sylt".into(),
+        ]
+    }
+    fn health(&self, s: &Stats) -> Result<(), String> {
+        if s.evaluations < 200 {
+            return Ok(());
+        }
+        let ev = s.evaluations as f64;
+        let acc = s.label("accepted") as f64 / ev;
+        if acc < 0.9 {
+            return Err(format!("only {:.1}% of rendered histories are accepted by the compiler (rule: >= 90 %)", acc * 100.0));
+        }
+        for k in ["kind:list", "kind:dict", "kind:set", "kind:maybemath"] {
+            if (s.label(k) as f64) < 0.08 * ev {
+                return Err(format!("{} makes up only {} of {} cases", k, s.label(k), s.evaluations));
+            }
+        }
+        for l in [
+            "nt:absent-lookup",
+            "nt:remove-after-insert",
+            "dict:get-hit",
+            "dict:get-after-remove",
+            "set:remove-present",
+            "list:get-hit",
+            "list:get-beyond-end",
+            "list:get-negative",
+            "list:pop-empty",
+            "op:list:fold",
+            "op:list:set",
+            "op:list:prepend",
+            "op:maybemath:div",
+            "floor:negative-fraction",
+            "elem:str",
+            "elem:tup-str-str",
+        ] {
+            if s.label(l) * 200 < s.evaluations {
+                return Err(format!("class {} is (nearly) absent: {} of {} cases", l, s.label(l), s.evaluations));
+            }
+        }
+        if (s.nontrivial as f64) < 0.4 * ev {
+            return Err(format!("only {} of {} cases are non-trivial", s.nontrivial, s.evaluations));
+        }
+        Ok(())
+    }
+}
+
+// ---------------------------------------------------------------------------------------------------
+// shrinking helpers
+// ---------------------------------------------------------------------------------------------------
+
+fn remap_pred(p: &Pred, j: usize) -> Option<Pred> {
+    let f = |k: usize| if k == j { None } else { Some(if k > j { k - 1 } else { k }) };
+    Some(match p {
+        Pred::Never => Pred::Never,
+        Pred::Always => Pred::Always,
+        Pred::Eq(k) => Pred::Eq(f(*k)?),
+        Pred::Ne(k) => Pred::Ne(f(*k)?),
+        Pred::Lt(k) => Pred::Lt(f(*k)?),
+        Pred::Gt(k) => Pred::Gt(f(*k)?),
+        Pred::FstEq(k) => Pred::FstEq(f(*k)?),
+    })
+}
+fn remap_mapfn(m: &MapFn, j: usize) -> Option<MapFn> {
+    let f = |k: usize| if k == j { None } else { Some(if k > j { k - 1 } else { k }) };
+    Some(match m {
+        MapFn::Add(k) => MapFn::Add(f(*k)?),
+        MapFn::IsEq(k) => MapFn::IsEq(f(*k)?),
+        other => other.clone(),
+    })
+}
+
+/// remove universe[j]; operations and initial elements that refer to it are dropped, larger indices shift
+fn drop_key(case: &Case, j: usize) -> Option<Case> {
+    let f = |k: usize| if k == j { None } else { Some(if k > j { k - 1 } else { k }) };
+    let mut c = case.clone();
+    c.universe.remove(j);
+    c.init = case.init.iter().filter_map(|(k, v)| f(*k).map(|k| (k, *v))).collect();
+    c.ops = case
+        .ops
+        .iter()
+        .filter_map(|op| {
+            Some(match op {
+                Op::Push(k) => Op::Push(f(*k)?),
+                Op::Prepend(k) => Op::Prepend(f(*k)?),
+                Op::Set(i, k) => Op::Set(*i, f(*k)?),
+                Op::Contains(k) => Op::Contains(f(*k)?),
+                Op::Remove(k) => Op::Remove(f(*k)?),
+                Op::Update(k, v) => Op::Update(f(*k)?, *v),
+                Op::Lookup(k) => Op::Lookup(f(*k)?),
+                Op::Add(k) => Op::Add(f(*k)?),
+                Op::Map(m) => Op::Map(remap_mapfn(m, j)?),
+                Op::Filter(p) => Op::Filter(remap_pred(p, j)?),
+                Op::Find(p) => Op::Find(remap_pred(p, j)?),
+                Op::May(src, h) => {
+                    let src = match src {
+                        MSrc::SrcJust(k) => MSrc::SrcJust(f(*k)?),
+                        MSrc::LibFind(p) => MSrc::LibFind(remap_pred(p, j)?),
+                        other => other.clone(),
+                    };
+                    let h = match h {
+                        MHelper::OrDefault(k) => MHelper::OrDefault(f(*k)?),
+                        MHelper::Map(m) => MHelper::Map(remap_mapfn(m, j)?),
+                        MHelper::AndThen(p) => MHelper::AndThen(remap_pred(p, j)?),
+                        other => other.clone(),
+                    };
+                    Op::May(src, h)
+                }
+                other => other.clone(),
+            })
+        })
+        .collect();
+    Some(c)
+}
+
+fn shrink_i(i: i64) -> Option<i64> {
+    if i == 0 {
+        None
+    } else if i.abs() == 1 {
+        Some(0)
+    } else {
+        Some(i / 2)
+    }
+}
+fn shrink_num(n: Num) -> Option<Num> {
+    shrink_i(n.raw()).map(|r| n.with_raw(r))
+}
+
+fn shrink_op(op: &Op) -> Option<Op> {
+    Some(match op {
+        Op::Get(i) => Op::Get(shrink_i(*i)?),
+        Op::Set(i, k) => {
+            if let Some(j) = shrink_i(*i) {
+                Op::Set(j, *k)
+            } else if *k > 0 {
+                Op::Set(*i, 0)
+            } else {
+                return None;
+            }
+        }
+        Op::Push(k) if *k > 0 => Op::Push(0),
+        Op::Prepend(k) if *k > 0 => Op::Prepend(0),
+        Op::Update(k, v) if *v > 0 => Op::Update(*k, 0),
+        Op::Map(m) if *m != MapFn::Id => Op::Map(MapFn::Id),
+        Op::Filter(p) if *p != Pred::Always && *p != Pred::Never => Op::Filter(Pred::Always),
+        Op::Find(p) if *p != Pred::Always && *p != Pred::Never => Op::Find(Pred::Never),
+        Op::Fold(f) => match f {
+            FoldFn::Count(0) => return None,
+            FoldFn::Count(_) => Op::Fold(FoldFn::Count(0)),
+            FoldFn::Sum(i) if *i != 0 => Op::Fold(FoldFn::Sum(0)),
+            FoldFn::SubAcc(i) if *i != 0 => Op::Fold(FoldFn::SubAcc(0)),
+            FoldFn::Poly(i) if *i != 0 => Op::Fold(FoldFn::Poly(0)),
+            FoldFn::SumFst(i) if *i != 0 => Op::Fold(FoldFn::SumFst(0)),
+            _ => return None,
+        },
+        Op::Math(m) => Op::Math(match m {
+            MathOp::Min(a, b) => match (shrink_num(*a), shrink_num(*b)) {
+                (Some(x), _) => MathOp::Min(x, *b),
+                (None, Some(y)) => MathOp::Min(*a, y),
+                _ => return None,
+            },
+            MathOp::Max(a, b) => match (shrink_num(*a), shrink_num(*b)) {
+                (Some(x), _) => MathOp::Max(x, *b),
+                (None, Some(y)) => MathOp::Max(*a, y),
+                _ => return None,
+            },
+            MathOp::Abs(a) => MathOp::Abs(shrink_num(*a)?),
+            MathOp::Sign(a) => MathOp::Sign(shrink_num(*a)?),
+            MathOp::Floor(a) => MathOp::Floor(shrink_num(*a)?),
+            MathOp::Clamp(x, lo, hi) => match (shrink_num(*x), shrink_num(*lo), shrink_num(*hi)) {
+                (Some(a), _, _) => MathOp::Clamp(a, *lo, *hi),
+                (None, Some(b), _) => MathOp::Clamp(*x, b, *hi),
+                (None, None, Some(c)) => MathOp::Clamp(*x, *lo, c),
+                _ => return None,
+            },
+            MathOp::Div(a, b) => match (shrink_i(*a), shrink_i(*b)) {
+                (Some(x), _) => MathOp::Div(x, *b),
+                (None, Some(y)) if y != 0 => MathOp::Div(*a, y),
+                _ => return None,
+            },
+        }),
+        Op::May(src, h) => {
+            if *h != MHelper::Observe {
+                Op::May(src.clone(), MHelper::Observe)
+            } else {
+                match src {
+                    MSrc::LibGet(i) => Op::May(MSrc::LibGet(shrink_i(*i)?), h.clone()),
+                    MSrc::LibFind(p) if *p != Pred::Never => Op::May(MSrc::LibFind(Pred::Never), h.clone()),
+                    _ => return None,
+                }
+            }
+        }
+        _ => return None,
+    })
+}
+
+fn shrink_val(v: &Val) -> Option<Val> {
+    match v {
+        Val::Int(i) => shrink_i(*i).map(Val::Int),
+        Val::Str(s) => {
+            if s.is_empty() {
+                None
+            } else {
+                let mut t = s.clone();
+                t.pop();
+                Some(Val::Str(t))
+            }
+        }
+        Val::Bool(b) => {
+            if *b {
+                Some(Val::Bool(false))
+            } else {
+                None
+            }
+        }
+        Val::Tup(xs) => {
+            for (i, x) in xs.iter().enumerate() {
+                if let Some(y) = shrink_val(x) {
+                    let mut c = xs.clone();
+                    c[i] = y;
+                    return Some(Val::Tup(c));
+                }
+            }
+            None
+        }
     }
 }
